@@ -466,9 +466,12 @@ def classify(prog, call, n, lags, leads, F, P, twin_fn):
         later = {p for p in periods if p > first}
         if same_control(F, P) and values_agree(mask_cols(F, later), mask_cols(P, later), libm, iterated):
             return ('solve-continues-after-offset-error', what)
-    if call['call'] == 'evaluate' and periods is None and F['tag'] == 'IndexError' and P['tag'] == 'IndexError':
-        # t outside the span: both raise IndexError, but the generated Python _evaluate has no up-front check, so the
-        # statements before the failing one have already stored (with `C[-1] = …` the store at t-1 is inside the span)
+    if call['call'] == 'evaluate' and periods is None and F['tag'] == 'IndexError':
+        # t outside the span: the compiled module refuses up front (IndexError, nothing changed); the generated Python
+        # _evaluate has no up-front check.  Either it raises IndexError too, but the statements before the failing one
+        # have already stored (with `C[-1] = …` the store at t-1 is inside the span); or — when every access of the
+        # program carries an offset that lands back inside the span, e.g. `X[-2] = … N[-2]` at t = n — it does not
+        # raise at all.  Both are the listed finding (same call site: the up-front check exists on one side only).
         return ('infeasible-period-evaluate', what)
     # explicit infeasible period: the compiled module refuses with its own error code
     if periods is not None and any(not feasible(p, n, lags, leads) for p in periods):
